@@ -77,6 +77,7 @@ def cases(draw, tier="quick"):
     P["extra_ops"] = draw(st.lists(st.tuples(st.integers(0, 1), st.sampled_from(XOPS)).map(list), max_size=4))
     P["gets"] = draw(st.sampled_from(["early", "tape", "late"]))
     P["input_refresh"] = draw(st.booleans())
+    P["wl_cb"] = draw(st.sampled_from(["wc", "wc", "close", "send"]))
     P["hs_fail"] = draw(st.sampled_from([[0, 0], [0, 0], [1, 0], [0, 1], [1, 2]]))
     P["hs_slow"] = draw(st.sampled_from([[False, False], [False, False], [True, False], [True, True]]))
     P["hs_fail_first"] = draw(st.sampled_from([[False, False], [False, False], [False, False], [True, False], [False, True]]))
